@@ -18,6 +18,11 @@ type mty struct {
 	Comparable bool
 }
 
+// memCollide: indices into Vals of two unequal values with the same generated hash.
+var memCollide = map[string][2]int{
+	"string": {2, 3}, "[2]int": {1, 2}, "[]int": {2, 3}, "[]string": {1, 2}, "T2": {1, 2},
+}
+
 var memPool = []mty{
 	{"int", []string{"0", "1", "2", "-1", "31"}, true},
 	{"string", []string{`""`, `"a"`, `"Aa"`, `"BB"`, `"b"`}, true},
@@ -90,6 +95,12 @@ func negZero() float64 { z := 0.0; return -z }
 
 var count map[string]int
 var _ = math.Pi
+
+// links makes f re-entrant: while f runs for the argument class on the left it
+// calls the memoised function for another class (never one that is still
+// being evaluated, which would not terminate for f itself either).
+var links map[string]func()
+var active map[string]bool
 `)
 	ptypes := make([]string, np)
 	pnames := vars("p", np)
@@ -112,7 +123,7 @@ var _ = math.Pi
 	}
 	keyArgs := strings.Join(pnames, ", ")
 	fmt.Fprintf(&sb, "\nfunc model(key string) []any {\n\th := seqrt.Hash64(key)\n\t_ = h\n\treturn []any{%s}\n}\n", strings.Join(rmk, ", "))
-	fmt.Fprintf(&sb, "\nfunc f(%s)%s {\n\tkey := seqrt.Key(%s)\n\tcount[key]++\n\tcalls++\n\th := seqrt.Hash64(key)\n\t_ = h\n\treturn %s\n}\n", strings.Join(ptypes, ", "), resSig, keyArgs, strings.Join(rmk, ", "))
+	fmt.Fprintf(&sb, "\nfunc f(%s)%s {\n\tkey := seqrt.Key(%s)\n\tcount[key]++\n\tcalls++\n\tif nx, ok := links[key]; ok && !active[key] {\n\t\tactive[key] = true\n\t\tnx()\n\t\tactive[key] = false\n\t}\n\th := seqrt.Hash64(key)\n\t_ = h\n\treturn %s\n}\n", strings.Join(ptypes, ", "), resSig, keyArgs, strings.Join(rmk, ", "))
 	// histories
 	nh := 4 + t.Intn(5)
 	var hist strings.Builder
@@ -122,6 +133,56 @@ var _ = math.Pi
 		var tuples [][]int
 		fmt.Fprintf(&hist, "\t{ // history %d\n\t\tcount = map[string]int{}\n\t\tmem := deriveMem(f)\n\t\tvar seen []string\n", h)
 		var desc []string
+		fmt.Fprintf(&hist, "\t\tlinks, active = map[string]func(){}, map[string]bool{}\n")
+		if np > 0 && t.Chance(1, 3) {
+			// re-entrant history: f called for src calls mem(dst) before it returns
+			nl := 1 + t.Intn(4)
+			var prev []int
+			for l := 0; l < nl; l++ {
+				var src, dst []int
+				if prev != nil && t.Bool() {
+					src = prev // a chain
+				} else {
+					for _, p := range ps {
+						src = append(src, t.Intn(len(p.Vals)))
+					}
+				}
+				dst = append([]int(nil), src...)
+				collided := false
+				if t.Bool() {
+					// same bucket, different class: swap one parameter for its colliding partner
+					for i, p := range ps {
+						if cp, ok := memCollide[p.Go]; ok && (src[i] == cp[0] || src[i] == cp[1]) {
+							dst[i] = cp[0] + cp[1] - src[i]
+							collided = true
+							break
+						}
+					}
+				}
+				if !collided {
+					for i, p := range ps {
+						dst[i] = t.Intn(len(p.Vals))
+					}
+				}
+				prev = dst
+				sa, da := make([]string, np), make([]string, np)
+				for i, p := range ps {
+					sa[i], da[i] = p.Vals[src[i]], p.Vals[dst[i]]
+				}
+				srcS, dstS := strings.Join(sa, ", "), strings.Join(da, ", ")
+				rv := vars("r", nr)
+				call := fmt.Sprintf("mem(%s)", dstS)
+				chk := ""
+				if nr > 0 {
+					call = strings.Join(rv, ", ") + " := " + call
+					chk = fmt.Sprintf("\t\t\tif want := model(k); !reflect.DeepEqual([]any{%s}, want) {\n\t\t\t\tproblem(res, \"wrong-result\", %q, fmt.Sprintf(\"re-entrant call: mem returns %%v, f returns %%v\", []any{%s}, want))\n\t\t\t}\n", strings.Join(rv, ", "), fmt.Sprintf("history %d", h), strings.Join(rv, ", "))
+				}
+				fmt.Fprintf(&hist, "\t\tlinks[seqrt.Key(%s)] = func() {\n\t\t\tk := seqrt.Key(%s)\n\t\t\tif active[k] {\n\t\t\t\treturn\n\t\t\t}\n\t\t\tseen = append(seen, k)\n\t\t\t%s\n%s\t\t}\n", srcS, dstS, call, chk)
+				desc = append(desc, "[f("+srcS+") calls mem("+dstS+")]")
+				// make sure the source class is called in this history
+				tuples = append(tuples, src)
+			}
+		}
 		for c := 0; c < ncalls; c++ {
 			var tup []int
 			if len(tuples) > 0 && t.Bool() {
